@@ -1,6 +1,114 @@
+/-
+C04 — Jordan-Wigner: property theorems.  `⟨x| A |m⟩` is read off the Spec's own evaluation
+`GV.coeff (applyOp alg A [m]) [x]` (the function the Spec oracle `c04.jw_check` runs on the
+implementation's outputs); fermionic Fock masks and qubit basis masks are identified (mode j on
+qubit j).  Model functions are the ones `ofv-driver` executes (`OFV.Model.C04`).
+`tol` is the deletion threshold of `SymbolicOperator.__iadd__` (`EQ_TOLERANCE`, extracted).
+-/
 import OFV.Model.C04
 import OFV.Spec.C04
+import OFV.Proofs.C04Term
 
 namespace OFV.C04
+open OFV OFV.Spec OFV.Model OFV.Model.C04 OFV.Sem
+
+/-- A Z-string `Z_0 … Z_{j-1}` multiplies `|s⟩` by `(-1)^{number of occupied modes below j}` and
+leaves the state alone — the parity the fermionic sign convention asks for (all `j`, all `s`). -/
+theorem jw_zstring (j s : Nat) : actPTerm (zs 0 j) s = (2 * (countBelow s j % 2), s) := by
+  rw [countBelow_eq_cnt]; exact actPTerm_zs s 0 j (Nat.zero_le _)
+
+/-- `QubitOperator._simplify` (stable sort by qubit + merge through the extracted product table) never
+changes what a Pauli string does to a basis state: for every string `t` (any length, any order,
+repeated qubits) `coefficient · simplified(t)|s⟩ = t|s⟩`. -/
+theorem jw_simplify_sound (t : List (Nat × Nat)) (h : ∀ f ∈ t, f.2 < 4) (s : Nat) :
+    (actPTerm (simplifyQubit t).2 s).2 = (actPTerm t s).2 ∧
+    (simplifyQubit t).1 * GQ.ipow (actPTerm (simplifyQubit t).2 s).1 = GQ.ipow (actPTerm t s).1 :=
+  simplifyQubit_sound h s
+
+/-- `QubitOperator.__imul__` is the operator product: `⟨x| a·b |m⟩ = Σ_r c_r i^{k_r} ⟨x| a |m_r⟩`, where the
+string `r` of `b` (coefficient `c_r`) sends `|m⟩` to `i^{k_r}|m_r⟩` — for all dictionaries of Pauli strings. -/
+theorem jw_mul_sound (a b : Model.Op) (ha : ∀ tc ∈ a, ∀ f ∈ tc.1, f.2 < 4) (hb : ∀ tc ∈ b, ∀ f ∈ tc.1, f.2 < 4)
+    (m x : Nat) :
+    GV.coeff (applyOp .qubit (mulOp .qubit a b) [m]) [x]
+      = (b.map fun r => r.2 * GQ.ipow (actPTerm r.1 m).1
+            * GV.coeff (applyOp .qubit a [(actPTerm r.1 m).2]) [x]).sum :=
+  den_mulOp_right a b ha hb m x
+
+/-- The entry `lookup_ladder_terms[(j, a)]` computed by the code is exactly
+`½ Z_0…Z_{j-1} X_j ∓ (i/2) Z_0…Z_{j-1} Y_j` (− for creation), for every `j`. -/
+theorem jw_ladder_closed (tol : Rat) (htol : tol * tol ≤ 1 / 4) (j a : Nat) :
+    jwLadder tol j a = [(zs 0 j ++ [(j, 1)], half),
+      (zs 0 j ++ [(j, 2)], 0 + if a != 0 then ⟨0, -(mkRat 1 2)⟩ else ⟨0, mkRat 1 2⟩)] :=
+  jwLadder_eq tol htol j a
+
+/-- **JW of one ladder operator is exact**: for every mode `j`, `a ∈ {0,1}` and all basis states,
+`⟨x| jw(a_j^(†)) |m⟩ = ⟨x| a_j^(†) |m⟩`. -/
+theorem jw_ladder_sound (tol : Rat) (htol : tol * tol ≤ 1 / 4) (j a : Nat) (ha : a ≤ 1) (m x : Nat) :
+    GV.coeff (applyOp .qubit (jwLadder tol j a) [m]) [x]
+      = GV.coeff (applyOp .fermion [([(j, a)], 1)] [m]) [x] := by
+  have h := jwLadder_sum tol htol (j, a) m (fun y => if y = x then 1 else 0)
+  have e : (if a = 0 then 0 else 1) = a := by split <;> omega
+  change den .qubit _ _ _ = den .fermion _ _ _
+  rw [den_eq_sum, den_cons, den_nil, termCoef_fermion]
+  simp only [termCoef_qubit]
+  have : (List.map (fun (tc : List (Nat × Nat) × GQ) => tc.2 *
+        if (actPTerm tc.1 m).2 = x then GQ.ipow (actPTerm tc.1 m).1 else 0) (jwLadder tol j a)).sum
+      = (List.map (fun (r : List (Nat × Nat) × GQ) => r.2 * GQ.ipow (actPTerm r.1 m).1 *
+        (fun y => if y = x then (1 : GQ) else 0) (actPTerm r.1 m).2) (jwLadder tol j a)).sum := by
+    congr 1; apply List.map_congr_left; intro r _
+    show r.2 * (if (actPTerm r.1 m).2 = x then GQ.ipow (actPTerm r.1 m).1 else 0)
+      = r.2 * GQ.ipow (actPTerm r.1 m).1 * (if (actPTerm r.1 m).2 = x then 1 else 0)
+    split <;> ring
+  rw [this, h]
+  simp only [actJW, e, actFTerm, List.foldr_cons, List.foldr_nil]
+  cases h2 : actF j a m with
+  | none => simp
+  | some km =>
+    obtain ⟨k, m'⟩ := km
+    have hs : GQ.sgn (k % 2) = GQ.sgn k := by unfold GQ.sgn; simp
+    simp [hs]
+
+/-- **JW of a term is exact** (the inner loop of `_jordan_wigner_fermion_operator`): for every product
+of ladder operators `t` (any length, any modes, repetitions allowed) and coefficient `c`,
+`⟨x| jwTerm(t, c) |m⟩ = ⟨x| c·t |m⟩` on all basis states. -/
+theorem jw_term_exact (tol : Rat) (htol : tol * tol ≤ 1 / 4) (t : List (Nat × Nat)) (ht : ∀ f ∈ t, f.2 ≤ 1)
+    (c : GQ) (m x : Nat) :
+    GV.coeff (applyOp .qubit (jwTerm tol t c) [m]) [x] = GV.coeff (applyOp .fermion [(t, c)] [m]) [x] := by
+  change den .qubit _ _ _ = den .fermion _ _ _
+  unfold jwTerm
+  rw [foldl_mulOp_sound (fun f => jwLadder tol f.1 f.2) actJW (jwLadder_valid tol htol)
+    (jwLadder_sum tol htol) t _ (mk_const_valid c), actTermG_actJW t ht, den_cons, den_nil, termCoef_fermion]
+  cases actFTerm t m with
+  | none => simp
+  | some km =>
+    obtain ⟨k, m'⟩ := km
+    simp only [den_mk_const]
+    split <;> simp [mul_comm]
+
+/-- **JW of a Majorana term is exact** (the inner loop of `_jordan_wigner_majorana_operator`):
+`γ_{2j} ↦ Z_0…Z_{j-1}X_j`, `γ_{2j+1} ↦ Z_0…Z_{j-1}Y_j`, for every index list. -/
+theorem jw_majorana_term_exact (t : List Nat) (c : GQ) (m x : Nat) :
+    GV.coeff (applyOp .qubit (jwMajTerm t c) [m]) [x]
+      = GV.coeff (applyOp .majorana [(t.map fun i => (i, 0), c)] [m]) [x] := by
+  change den .qubit _ _ _ = den .majorana _ _ _
+  have e : jwMajTerm t c = (t.map fun i => (i, 0)).foldl
+      (fun w (f : Nat × Nat) => mulOp .qubit w (jwMajFactor f.1)) (mk .qubit [] c) := by
+    unfold jwMajTerm; rw [List.foldl_map]
+  rw [e, foldl_mulOp_sound (fun f => jwMajFactor f.1) actMaj jwMajFactor_valid jwMajFactor_sum _ _
+    (mk_const_valid c), actTermG_actMaj, den_cons, den_nil, termCoef_majorana]
+  simp only [den_mk_const]
+  split <;> simp [mul_comm]
+
+/-! ### non-vacuity -/
+
+/-- the threshold the driver runs with satisfies the hypothesis of the theorems -/
+example : Generated.eqTolerance * Generated.eqTolerance ≤ 1 / 4 := by
+  unfold Generated.eqTolerance; norm_num [Rat.mkRat_eq_div]
+
+/-- a term with repeated modes and both kinds of ladder operators satisfies `ht` -/
+example : ∀ f ∈ [(3, 1), (0, 0), (3, 0), (1, 1)], f.2 ≤ 1 := by decide
+
+/-- a Pauli string with repeated qubits out of order satisfies the hypothesis of `jw_simplify_sound` -/
+example : ∀ f ∈ [(2, 1), (0, 3), (2, 2), (0, 3)], f.2 < 4 := by decide
 
 end OFV.C04
